@@ -10,13 +10,13 @@ ADDED = {
  "C04": "the fully parenthesised rendering is compared with the exact binary tree (chain balancing is tolerated only for the minimal rendering); chains of 2..4 operands with 1/5/35/71 AST nodes in every combination; nested prefix forms. Also: every tree with <= 2 operators under every assignment of two names to its leaves (repeated leaves).",
  "C05": "the history alphabet has 36 programs (macros failing mid-loop, macro variables named like context variables, regex and conversion built-ins, equal-shaped temporaries asked the same question, built-in names selected as members without a call); results are also compared with results computed before any history ran and with freshly compiled programs; the thread programs include a 9-deep macro nest. It also holds same-shaped programs with different literals, the first failing; and membership in equal-shaped temporary lists of eight strings.",
  "C06": "15 contexts (macro bodies of every form, nested macro, list element, map value, call argument, negated, compared, conditional branch); 6 error kinds incl. a call of an undeclared function; a second tree family with the literals true/false as two more leaf kinds (<= 2 operators quick, <= 3 thorough).",
- "C07": "host functions named like operators (`_h`), map/list literals with several entries, inner-macro templates, list-literal indexing. Also: multi-field paths has2 / has2-absent / has3 / select2.",
+ "C07": "host functions named like operators (`_h`), map/list literals with several entries, inner-macro templates, list-literal indexing. Also: multi-field paths has2 / has2-absent / has3 / select2. Session 3: sub-space mixed-arguments (host signatures with positional parameters in front of / behind the Arguments extractor: 7 templates x every leaf assignment x every hole a leaf or an inner template) - on the pinned tree this reproduces a genuine double evaluation recorded as 21 known keys.",
  "C08": "nested unary minus forms (-(-a), -(-(-a)), 0 - (-a), ...) over the whole int set. Session 3: every ordered pair of a contiguous range (int -33..33 / uint 0..66 quick, -400..400 / 0..800 thorough), that range against the whole boundary set in both orders, and three-operand programs (25 operator pairs x {left-grouped, right-grouped, unparenthesised} over 14/11 (24/19) values per type): every intermediate result is range-checked, so widening, reassociation or folding is a wrong verdict.",
  "C09": "",
  "C10": "every list-valued macro chained as the range of every macro (same / different variable name); list-literal ranges of observable or variable-reading element expressions (value + visit log, outer name re-read after the macro); constant bodies over lists and maps (variable and literal ranges). Also: twin-elements (lists <= 3 over 1, 1u, 1.0, 2, 0.0, -0.0, [3], [3.0] x type-sensitive bodies); observable bodies that ignore the iteration variable (constant-argument logging calls, an erroring body).",
  "C11": "(A) value pool {1, 1u, 2, null} (equal-but-distinguishable twins; a name bound to null is bound), up to three nested child scopes; (B) two program profiles (ints; twins whose outer bindings equal the iterated elements in another numeric type), names read before and after nested macros, shadow chains of 2..4 map levels with every assignment of the three names to the levels and a null element at each level in turn. Also: chained scopes ({map, filter} as the range of every macro form x both iteration variables x one further name read in each body).",
  "C12": "U+000D in the character alphabet; every pair and triple of 13 escape atoms (7 invalid); every string of length 3..5 over {backslash, ', \", a} in the 8 raw styles.",
- "C13": "bit-pattern double sets in thorough; first values beyond each range.",
+ "C13": "bit-pattern double sets in thorough; first values beyond each range. Session 3: contiguous ranges (ints -300..300 / uints 0..600 / every multiple of 1/8 and 1/10 in the range; thorough -2100..2100) in every literal spelling and conversion, decimal texts of a contiguous range and of the boundary sets as string arguments.",
  "C14": "keys spelled like built-ins (`size`), keys supplied as variables; entry values of every falsy kind next to truthy ones; aliasing family: one variable (incl. [NaN], {'a': NaN}) read on both sides of in / contains / ==. Also: concat-ownership (every mix of context variable / literal / temporary operands).",
  "C15": "every unit x 1..45 fraction digits x 5 digit patterns x 4 surroundings against an independent long-multiplication reference (beyond 18 digits the value of the first 18 digits is accepted too). Strings outside the strict grammar but inside Go's (leading +, .5s, 1.s, 0, micro-sign units) may be rejected, but if accepted must denote Go's value.",
  "C16": "accessors also on host-supplied timestamp values; `d + t` and `d + (t - d)` checked for exact instant and preserved offset; chrono's limit instants in extreme offsets.",
